@@ -17,7 +17,7 @@ unshare -m bash -c "
   export CARGO_TARGET_DIR=/verif/.target-mut$SLOT VERIF_SCHED_TARGET=/verif/.target-sched-mut$SLOT VERIF_CLI_TARGET=/verif/.target-mut$SLOT/repo-cli
   for id in $*; do
     echo \"=== \$id ($TIER) on mutant\"
-    ./check \$id --tier $TIER 2>&1 | grep -E 'VIOLATION|violation:|KNOWN-FINDING|MACHINERY|unknown_violations|error' | cut -c1-260 | head -12
+    ./check \$id --tier $TIER 2>&1 | grep -E 'VIOLATION|violation:|KNOWN-FINDING|MACHINERY|unknown_violations|error' | cut -c1-260 | awk 'NR<=12'
     echo \"rc=\${PIPESTATUS[0]}\"
   done
 "
